@@ -33,10 +33,14 @@ def main():
         if route == "compiler":
             from rzilcompiler.ArchEnum import ArchEnum
             from rzilcompiler.Compiler import Compiler
-            c = Compiler.__new__(Compiler)
-            c.arch = ArchEnum.HEXAGON
-            c.set_lark_parser()
-            return c.parser
+            try:
+                c = Compiler.__new__(Compiler)
+                c.arch = ArchEnum.HEXAGON
+                c.set_lark_parser()
+                return c.parser
+            except AttributeError:
+                # construction code moved: fall back to the full constructor (3.7 s)
+                return Compiler(ArchEnum.HEXAGON).parser
         if route == "direct":
             from lark import Lark
             with open(os.path.join(repo, "Resources", "Hexagon", "grammar.lark")) as f:
